@@ -682,8 +682,11 @@ impl Prop for C12 {
                     let _ = h.join();
                 }
             }
-            let longest: u64 = scn.clients.iter().map(|c| c.start_ms + c.steps.iter().map(|s| s.ms).sum::<u64>()).max().unwrap_or(0);
-            let settle = longest + 1200 + slow_extra_ms + hb.map(|(i, t)| t + 2 * i).unwrap_or(0);
+            // (a script takes its sleeps plus the pauses between the fragments of its messages; what it
+            // sends last still has to cross the network, be dispatched, and its replies cross back)
+            let longest: u64 = scn.clients.iter().map(|c| c.start_ms + c.steps.iter().map(|s| s.ms + (s.burst.clamp(1, 4) * s.frags.clamp(0, 3)) as u64 * s.frag_gap_ms.min(40)).sum::<u64>()).max().unwrap_or(0);
+            let net_ms = 3 * scn.sim.latency_max_ns.unwrap_or(0) / 1_000_000;
+            let settle = longest + 1200 + net_ms + slow_extra_ms + hb.map(|(i, t)| t + 2 * i).unwrap_or(0);
             humsim::thread::sleep(Duration::from_millis(settle));
             let t_sig = sim::now_ns();
             let _ = tx.send(());
